@@ -120,7 +120,7 @@ def _analyses():
             "compares type and structure fields, ComplexArrayVSpace overrides (A4.vspace), purity and mut_add(None, x) freshness (A9.pure).",
         ),
         "C14": (
-            [kc.zero_paths, a1.nograd, a1.sym, a1.none_rules, a1.methods, ka.arraybox_table, kt.wrapper, kt.trace_fn],
+            [kc.zero_paths, a1.nograd, a1.sym, a1.none_rules, a1.methods, ka.arraybox_table, kt.wrapper, kt.notrace_wrapper, kt.trace_fn],
             "Exact zeros: independent outputs give zeros of the right space and never None (A13.zero); everything declared non-differentiable is locally constant (A1.nograd/none/methods, "
             "facts about NumPy) for both node types (A1.sym); comparisons map to untraced functions, __bool__/shape/len read the raw value (A14); the notrace branch returns plain values.",
         ),
@@ -382,6 +382,29 @@ def _namespace_classes(ctx, world):
     ctx.extra["namespace_classes"] = counts
     ctx.ob("A6.namespace", f"{total} exported callables classified: {counts}", True, wrapper_mod.relpath, sample=str(counts))
     ctx.floor("A6.namespace exported callables", total, 400)
+
+
+def analyse_quiet(prop, root, tier="quick"):
+    """Run one property's rules on a tree without printing or writing evidence; returns
+    {'code': 0|1|2, 'violations': [(rule, construct, loc)], 'error': str|None}."""
+    try:
+        table = _analyses()
+        fns, explanation = table[prop]
+        world = World(root, tier)
+        ctx = Ctx(prop, tier, world.root)
+        for fn in fns:
+            fn(ctx, world)
+        ctx.floor("rule table entries (autograd.numpy*, core, builtins)", sum(1 for e in world.table.entries if world.in_numpy_scope(e)), 330)
+        finish(ctx, explanation, TRUSTED, [], quiet=True)
+        r = dict(ctx.result)
+        r["error"] = None
+        return r
+    except AnalysisError as e:
+        return {"code": 2, "violations": [], "known": [], "error": str(e)}
+    except Exception as e:  # a crash of the checker is an analysis error, never a verdict
+        import traceback
+
+        return {"code": 2, "violations": [], "known": [], "error": "crash: " + traceback.format_exc()[-400:]}
 
 
 def run_property(prop, tier, root, replay_key=None, selftest=True):
